@@ -143,6 +143,16 @@ def _get_mypy_asts(
     return package_ast + module_ast
 
 
+def _get_constructed_class_fullname(callable_type: mypy_types.CallableType) -> str:
+    """Return the qualified name of the class a constructor callable creates, or "" for any other callable.
+
+    This does not rely on `CallableType.bound_args`, which was removed in newer mypy versions.
+    """
+    if callable_type.is_type_obj():
+        return callable_type.type_object().fullname
+    return ""
+
+
 def _get_aliases(result_types: dict, package_name: str) -> dict[str, set[str]]:
     aliases: dict[str, set[str]] = defaultdict(set)
     for key in result_types:
@@ -167,9 +177,7 @@ def _get_aliases(result_types: dict, package_name: str) -> dict[str, set[str]]:
                     ):
                         fullname = key.node.target.type.fullname
                     elif isinstance(type_value, mypy_types.CallableType):
-                        bound_args = type_value.bound_args
-                        if bound_args and hasattr(bound_args[0], "type"):
-                            fullname = bound_args[0].type.fullname  # type: ignore[union-attr]
+                        fullname = _get_constructed_class_fullname(type_value)
                     elif hasattr(key, "node") and isinstance(key.node, mypy_nodes.Var):
                         fullname = key.node.fullname
 
@@ -186,8 +194,8 @@ def _get_aliases(result_types: dict, package_name: str) -> dict[str, set[str]]:
                     continue
 
             if in_package:
-                if isinstance(type_value, mypy_types.CallableType) and hasattr(type_value.bound_args[0], "type"):
-                    fullname = type_value.bound_args[0].type.fullname  # type: ignore[union-attr]
+                if isinstance(type_value, mypy_types.CallableType) and _get_constructed_class_fullname(type_value):
+                    fullname = _get_constructed_class_fullname(type_value)
                 elif isinstance(type_value, mypy_types.Instance):
                     fullname = type_value.type.fullname
                 elif isinstance(key, mypy_nodes.TypeVarExpr):
